@@ -1,81 +1,230 @@
-//! FSE per RFC 8878 section 4.1: table construction from a normalized distribution, the
-//! distribution's serialized description, and an encoder that is the inverse of the decode table.
-use crate::bits::{BackBits, FwdBits};
+//! FSE per RFC 8878 section 4.1: decoding table from a normalized distribution, the distribution's
+//! serialized description (writer and strict parser), and an encoder that is the inverse of the decode table.
+use crate::bits::{BackBits, FwdBits, FwdReader};
 
 #[derive(Clone, Debug, PartialEq, Eq)]
-pub struct Entry { pub sym: u8, pub nbits: u8, pub base: u16 }
+pub struct Entry {
+    pub sym: u8,
+    pub nbits: u8,
+    pub base: u16,
+}
 
-#[derive(Clone, Debug)]
-pub struct Table { pub log: u8, pub dist: Vec<i16>, pub entries: Vec<Entry> }
+#[derive(Clone, Debug, PartialEq, Eq)]
+pub struct Table {
+    pub log: u8,
+    pub dist: Vec<i16>,
+    pub entries: Vec<Entry>,
+}
 
+pub fn dist_sum(dist: &[i16]) -> usize {
+    dist.iter().map(|&p| if p == -1 { 1 } else { p.max(0) as usize }).sum()
+}
+
+/// Decoding table of a normalized distribution (probabilities -1, 0, 1..) that sums to 2^log.
 pub fn build(dist: &[i16], log: u8) -> Table {
     let size = 1usize << log;
-    assert_eq!(dist.iter().map(|&p| if p == -1 { 1 } else { p as usize }).sum::<usize>(), size, "distribution must sum to table size");
+    assert_eq!(dist_sum(dist), size, "distribution must sum to the table size");
+    assert!(dist.len() <= 256);
     let mut sym_of = vec![0u8; size];
     let mut high = size;
-    for (s, &p) in dist.iter().enumerate() { if p == -1 { high -= 1; sym_of[high] = s as u8; } }
-    let step = (size >> 1) + (size >> 3) + 3; let mask = size - 1; let mut pos = 0usize;
-    for (s, &p) in dist.iter().enumerate() { if p <= 0 { continue; } for _ in 0..p { sym_of[pos] = s as u8; loop { pos = (pos + step) & mask; if pos < high { break; } } } }
-    assert_eq!(pos, 0);
+    for (s, &p) in dist.iter().enumerate() {
+        if p == -1 {
+            high -= 1;
+            sym_of[high] = s as u8;
+        }
+    }
+    let step = (size >> 1) + (size >> 3) + 3;
+    let mask = size - 1;
+    let mut pos = 0usize;
+    for (s, &p) in dist.iter().enumerate() {
+        if p <= 0 {
+            continue;
+        }
+        for _ in 0..p {
+            sym_of[pos] = s as u8;
+            loop {
+                pos = (pos + step) & mask;
+                if pos < high {
+                    break;
+                }
+            }
+        }
+    }
+    assert_eq!(pos, 0, "spreading must end at position 0");
     let mut next: Vec<u32> = dist.iter().map(|&p| if p == -1 { 1 } else { p.max(0) as u32 }).collect();
     let mut entries = Vec::with_capacity(size);
-    for st in 0..size {
-        let s = sym_of[st] as usize;
-        if dist[s] == -1 { entries.push(Entry { sym: s as u8, nbits: log, base: 0 }); continue; }
-        let x = next[s]; next[s] += 1;
+    for &sym in sym_of.iter() {
+        let s = sym as usize;
+        if dist[s] == -1 {
+            entries.push(Entry { sym, nbits: log, base: 0 });
+            continue;
+        }
+        let x = next[s];
+        next[s] += 1;
         let nbits = log as u32 - (31 - x.leading_zeros());
         let base = ((x << nbits) as usize - size) as u16;
-        entries.push(Entry { sym: s as u8, nbits: nbits as u8, base });
+        entries.push(Entry { sym, nbits: nbits as u8, base });
     }
     Table { log, dist: dist.to_vec(), entries }
 }
 
-/// Serialized table description (section 4.1.1), padded to a byte.
+/// Serialized table description (section 4.1.1), padded to a byte. Trailing zero-probability symbols are not
+/// written.
 pub fn describe(dist: &[i16], log: u8) -> Vec<u8> {
     let mut w = FwdBits::new();
+    describe_into(dist, log, &mut w);
+    w.finish()
+}
+pub fn describe_into(dist: &[i16], log: u8, w: &mut FwdBits) {
+    assert!((5..=20).contains(&log));
+    assert_eq!(dist_sum(dist), 1usize << log);
     w.put((log - 5) as u64, 4);
     let mut remaining: i32 = 1 << log;
     let mut i = 0;
     while remaining > 0 {
-        let p = dist[i] as i32; i += 1;
+        let p = dist[i] as i32;
+        i += 1;
         let max = remaining + 1; // values 0..=max
         let nb = 32 - (max as u32).leading_zeros(); // bits to hold max
-        let thresh = (1i32 << nb) - 1 - max; // number of "small" values coded on nb-1 bits
+        let thresh = (1i32 << nb) - 1 - max; // number of small values coded on nb-1 bits
         let v = p + 1;
-        if v < thresh { w.put(v as u64, nb - 1); }
-        else if v < (1 << (nb - 1)) { w.put(v as u64, nb); }
-        else { w.put((v + thresh) as u64, nb); }
+        if v < thresh {
+            w.put(v as u64, nb - 1);
+        } else if v < (1 << (nb - 1)) {
+            w.put(v as u64, nb);
+        } else {
+            w.put((v + thresh) as u64, nb);
+        }
         remaining -= if p == -1 { 1 } else { p };
         if p == 0 {
-            let mut zeros = 0; while dist[i] == 0 { zeros += 1; i += 1; }
-            while zeros >= 3 { w.put(3, 2); zeros -= 3; }
+            let mut zeros = 0;
+            while dist[i] == 0 {
+                zeros += 1;
+                i += 1;
+            }
+            while zeros >= 3 {
+                w.put(3, 2);
+                zeros -= 3;
+            }
             w.put(zeros as u64, 2);
         }
     }
-    assert!(dist[i..].iter().all(|&p| p == 0), "trailing zero symbols are fine but nothing else");
-    w.finish()
+    assert!(dist[i..].iter().all(|&p| p == 0), "only zero probabilities may follow the last described symbol");
 }
 
-/// Encoder: inverse of the decode table. encode symbols so that a decoder reading `out` obtains them in order.
-pub struct Enc<'t> { t: &'t Table, by_sym: Vec<Vec<usize>> }
+#[derive(Debug, Clone, PartialEq, Eq)]
+pub enum DescError {
+    Truncated,
+    LogTooBig(u8),
+    TooManySymbols(usize),
+}
+
+/// Strict parser of a table description: (log, distribution without trailing zeros, bytes used).
+pub fn parse_description(src: &[u8], max_log: u8, max_symbol: usize) -> Result<(u8, Vec<i16>, usize), DescError> {
+    let mut r = FwdReader::new(src);
+    let log = r.get(4).ok_or(DescError::Truncated)? as u8 + 5;
+    if log > max_log {
+        return Err(DescError::LogTooBig(log));
+    }
+    let mut remaining: i32 = 1 << log;
+    let mut dist: Vec<i16> = vec![];
+    while remaining > 0 {
+        let max = remaining + 1;
+        let nb = 32 - (max as u32).leading_zeros();
+        let thresh = (1i32 << nb) - 1 - max;
+        let low = r.get(nb - 1).ok_or(DescError::Truncated)? as i32;
+        let v = if low < thresh {
+            low
+        } else {
+            let hi = r.get(1).ok_or(DescError::Truncated)? as i32;
+            let full = low | (hi << (nb - 1));
+            if hi == 1 {
+                full - thresh
+            } else {
+                full
+            }
+        };
+        let p = v - 1;
+        dist.push(p as i16);
+        remaining -= if p == -1 { 1 } else { p };
+        if p == 0 {
+            loop {
+                let k = r.get(2).ok_or(DescError::Truncated)? as usize;
+                dist.extend(std::iter::repeat(0).take(k));
+                if k != 3 {
+                    break;
+                }
+            }
+        }
+        if dist.len() > 512 {
+            return Err(DescError::TooManySymbols(dist.len()));
+        }
+    }
+    if dist.len() > max_symbol + 1 {
+        return Err(DescError::TooManySymbols(dist.len()));
+    }
+    Ok((log, dist, r.bytes_used()))
+}
+
+/// Encoder: inverse of the decode table.
+pub struct Enc<'t> {
+    pub t: &'t Table,
+    by_sym: Vec<Vec<usize>>,
+}
 impl<'t> Enc<'t> {
-    pub fn new(t: &'t Table) -> Self { let mut by_sym = vec![vec![]; 256]; for (i, e) in t.entries.iter().enumerate() { by_sym[e.sym as usize].push(i); } Enc { t, by_sym } }
-    /// any state decoding to `sym` (the one with the given ordinal among its states, modulo count)
-    pub fn state_for(&self, sym: u8, ordinal: usize) -> usize { let v = &self.by_sym[sym as usize]; assert!(!v.is_empty(), "symbol {sym} has no state"); v[ordinal % v.len()] }
-    /// the state `s` decoding to `sym` such that from `s` the decoder can move to `next` : returns (s, bits value, nbits)
+    pub fn new(t: &'t Table) -> Self {
+        let mut by_sym = vec![vec![]; 256];
+        for (i, e) in t.entries.iter().enumerate() {
+            by_sym[e.sym as usize].push(i);
+        }
+        Enc { t, by_sym }
+    }
+    pub fn has(&self, sym: u8) -> bool {
+        !self.by_sym[sym as usize].is_empty()
+    }
+    pub fn states_of(&self, sym: u8) -> &[usize] {
+        &self.by_sym[sym as usize]
+    }
+    /// a state decoding to `sym` (the one with the given ordinal among its states, modulo their number)
+    pub fn state_for(&self, sym: u8, ordinal: usize) -> usize {
+        let v = &self.by_sym[sym as usize];
+        assert!(!v.is_empty(), "symbol {sym} has no state");
+        v[ordinal % v.len()]
+    }
+    /// a state decoding to `sym` whose transition needs at least one bit, if there is one
+    pub fn state_with_bits(&self, sym: u8) -> Option<usize> {
+        self.by_sym[sym as usize].iter().copied().find(|&s| self.t.entries[s].nbits > 0)
+    }
+    /// the state `s` decoding to `sym` from which the decoder moves to `next`: (s, bits value, nbits)
     pub fn prev_state(&self, sym: u8, next: usize) -> (usize, u64, u32) {
-        for &s in &self.by_sym[sym as usize] { let e = &self.t.entries[s]; let lo = e.base as usize; let hi = lo + (1usize << e.nbits); if next >= lo && next < hi { return (s, (next - lo) as u64, e.nbits as u32); } }
+        for &s in &self.by_sym[sym as usize] {
+            let e = &self.t.entries[s];
+            let lo = e.base as usize;
+            let hi = lo + (1usize << e.nbits);
+            if next >= lo && next < hi {
+                return (s, (next - lo) as u64, e.nbits as u32);
+            }
+        }
         panic!("no state of symbol {sym} reaches {next}");
     }
 }
 
-/// Encode a plain single-state FSE stream of symbols (as used nowhere in zstd on its own, but handy for tests)
+/// A single-state FSE stream (state init, then one transition per symbol but the last).
 pub fn encode_stream(t: &Table, syms: &[u8]) -> Vec<u8> {
     let enc = Enc::new(t);
-    // decoder: init state (log bits), then for each symbol but the last: emit symbol, read nbits -> next
-    let n = syms.len(); let mut states = vec![0usize; n]; let mut trans = vec![(0u64, 0u32); n];
+    let n = syms.len();
+    let mut states = vec![0usize; n];
+    let mut trans = vec![(0u64, 0u32); n];
     states[n - 1] = enc.state_for(syms[n - 1], 0);
-    for i in (0..n - 1).rev() { let (s, v, nb) = enc.prev_state(syms[i], states[i + 1]); states[i] = s; trans[i] = (v, nb); }
-    let mut b = BackBits::new(); b.push(states[0] as u64, t.log as u32); for i in 0..n - 1 { b.push(trans[i].0, trans[i].1); }
+    for i in (0..n - 1).rev() {
+        let (s, v, nb) = enc.prev_state(syms[i], states[i + 1]);
+        states[i] = s;
+        trans[i] = (v, nb);
+    }
+    let mut b = BackBits::new();
+    b.push(states[0] as u64, t.log as u32);
+    for tr in trans.iter().take(n - 1) {
+        b.push(tr.0, tr.1);
+    }
     b.finish()
 }
